@@ -230,6 +230,9 @@ func (r *renderer) expr(e *Expr) {
 			return
 		}
 		lp, rp := precOf(e.L) < p, precOf(e.R) <= p
+		if e.L.Op == "path" && e.L.Abs && len(e.L.Steps) == 0 {
+			lp = true // "/ or x", "/ * 2" would read the operator as a name test of the path
+		}
 		if r.st.FullParens {
 			lp, rp = !isPrimary(e.L), !isPrimary(e.R)
 		}
